@@ -215,9 +215,9 @@ def run(ctx: Ctx):
         return "infra"
     quick = ctx.tier == "quick"
     ctx.model_diffs = []
-    problems = make_problems(ctx, 120 if quick else 2500)
+    problems = make_problems(ctx, 120 if quick else 1200)
     pending = []
-    soft_deadline = ctx.t0 + (150 if quick else 5400)
+    soft_deadline = ctx.t0 + (150 if quick else 2400)
     for pb, res in solverun.run_all(problems, wall_limit=30.0, deadline=soft_deadline):
         if not summarize(ctx, pb, res):
             continue
